@@ -5,7 +5,8 @@ package art
 // C13: key arguments are neither written to nor retained by reference (byte-slice keys).
 //
 // params: 0 kind (0 byte-string []byte tree, 15 collation []byte tree); 1 reuse one buffer for all keys (0/1);
-//         2 nCalls; then per call: (op, keyLenOrSpec, spareCapacity); op: 0 Insert 1 Search 2 Delete 3 Prefix 4 Range
+//         2 nCalls; then per call: (op, keyLenOrSpec, spareCapacity); op: 0 Insert 1 Search 2 Delete 3 Prefix 4 Range(k,k)
+//         5 Range(k, empty end): the end defaults to the stored maximum, the bounds are swapped when k lies above it
 
 func init() { vpRegister("hAlias", hAlias) }
 
@@ -86,6 +87,12 @@ func hAlias() {
 		case 2:
 			t.Delete(key)
 			ref.del(keep)
+		case 5:
+			// only the caller's memory is judged here (what Range(k, "") yields when k is above the maximum is carved
+			// out of C03); the sequence is consumed after the buffer check so that a lazy write would be seen too
+			seq := t.Range(key, nil)
+			vpAssert(vpEqBytes(buf, before), "C13 the call changed the caller's key bytes or the spare capacity behind them")
+			collect(seq)
 		case 3, 4:
 			// the sequence is obtained, the caller then reuses its buffer, and only then ranges over the sequence:
 			// what it yields must be what the original key asked for
